@@ -1,7 +1,7 @@
 """All contracts, by name."""
-from . import symbolic_nodes, negation, quantifiers, mappings, toplevel, cache
+from . import symbolic_nodes, negation, quantifiers, mappings, toplevel, cache, required
 
-MODULES = [symbolic_nodes, negation, quantifiers, mappings, toplevel, cache]
+MODULES = [symbolic_nodes, negation, quantifiers, mappings, toplevel, cache, required]
 
 
 def all_contracts():
